@@ -23,6 +23,7 @@ META = dict(
 )
 META["text"] += ' (R6, N) no np.full_like / np.empty_like of a data-shaped array without dtype: the published formulas are over the reals, an integer-vote sample must not truncate 0.5 to 0.'
 META["text"] += " R4 also classifies every in-place override by its controlling condition (strict versus non-strict comparison with 0 / N t). (R7, N) no statistic stores into, or augments in place, an array that can be the caller's sample."
+META["text"] += ' (R8, N) no method keeps state between calls (see C01.R8); the factor identity is decided per regime and per value of every other condition the history branches on.'
 
 
 def run(chk):
